@@ -45,6 +45,19 @@ __all__ = ['BaseOperationRecorder', 'TestClientRecorder',
 OpArgsTuple = namedtuple("OpArgsTuple", ["method", "args"])
 
 
+def _payload_to_unicode(payload):
+    """
+    Return the HTTP payload as a unicode string for logging purposes.
+
+    Byte strings are decoded as UTF-8 in a tolerant way: Logging must not fail
+    if the payload is not valid UTF-8, or if its truncation to the maximum log
+    entry length cuts a multi-byte UTF-8 sequence.
+    """
+    if isinstance(payload, bytes):
+        return payload.decode('utf-8', errors='replace')
+    return payload
+
+
 class OpArgs(OpArgsTuple):
     """
     A named tuple representing the name and input arguments of the invocation
@@ -713,10 +726,8 @@ class LogOperationRecorder(BaseOperationRecorder):
                                   for k, v in headers.items())
             if self.http_detail_level == 'summary':
                 upayload = ""
-            elif isinstance(payload, bytes):
-                upayload = payload.decode('utf-8')
             else:
-                upayload = payload
+                upayload = _payload_to_unicode(payload)
             if self.http_maxlen and (len(payload) > self.http_maxlen):
                 upayload = upayload[:self.http_maxlen] + '...'
             upayload = repr(upayload)
@@ -754,10 +765,10 @@ class LogOperationRecorder(BaseOperationRecorder):
             if self.http_detail_level == 'summary':
                 upayload = ""
             elif self.http_maxlen and (len(payload) > self.http_maxlen):
-                upayload = (_ensure_unicode(payload[:self.http_maxlen]) +
+                upayload = (_payload_to_unicode(payload[:self.http_maxlen]) +
                             '...')
             else:
-                upayload = _ensure_unicode(payload)
+                upayload = _payload_to_unicode(payload)
             upayload = repr(upayload)
             if upayload.startswith("u'"):
                 upayload = upayload[1:]
@@ -906,7 +917,7 @@ class TestClientRecorder(BaseOperationRecorder):
                             http_request.headers[hdr_name]
             tc_http_request['headers'] = tc_request_headers
             if http_request.payload is not None:
-                data = http_request.payload.decode('utf-8')
+                data = _payload_to_unicode(http_request.payload)
                 data = data.replace('><', '>\n<').strip()
             else:
                 data = None
@@ -925,7 +936,7 @@ class TestClientRecorder(BaseOperationRecorder):
                             http_response.headers[hdr_name]
             tc_http_response['headers'] = tc_response_headers
             if http_response.payload is not None:
-                data = http_response.payload.decode('utf-8')
+                data = _payload_to_unicode(http_response.payload)
                 data = data.replace('><', '>\n<').strip()
             else:
                 data = None
